@@ -12,6 +12,7 @@ oracle function is called from the Hypothesis search, from the exhaustive
 enumerators and from --replay.
 """
 import hashlib
+import importlib
 import json
 import math
 import multiprocessing as mp
@@ -64,7 +65,13 @@ class Sub:
     def __init__(self, name, oracle, strategy=None, enumerate=None,
                  machine=None, n=(200, 5000), shards=(1, 8),
                  steps=(30, 50), budget=(150, 3000), bucket=None,
-                 rounds=(4, 8)):
+                 rounds=(4, 8), stall_s=None):
+        # stall_s: a call that has not come back after this many seconds is
+        # taken for a hang: the worker is killed and the case it was
+        # evaluating goes through the crash pipeline (replayed in a fresh
+        # process under the same limit). Default STALL_S; sub-checks whose
+        # cases are all small set a short limit.
+        self.stall_s = stall_s
         # bucket: fn(message) -> root-cause key. When given, a search that
         # found a failure is repeated with that bucket excluded (counted),
         # so that one shallow defect does not hide the others.
@@ -368,6 +375,7 @@ def run_task(args, casefd=None):
             _run_machine(sub, rec, tier, seed, sub.n[ti], sub.steps[ti])
         else:
             nrounds = sub.rounds[ti] if sub.bucket is not None else 1
+            _first_use(sub, rec, tier, seed)
             for rnd in range(nrounds):
                 nfail = len(rec.failures)
                 try:
@@ -434,6 +442,32 @@ def _run_hypothesis(sub, rec, tier, seed, n):
         rec.call(case)
 
     test()
+
+
+def _first_use(sub, rec, tier, seed):
+    """The first oracle call of a worker is the first use of the code under
+    test in that process (module-level and static state still untouched).
+    Hypothesis always starts with the simplest case, so a few cases are
+    drawn without being evaluated and the last of them is evaluated first:
+    every shard of every sub-check starts on a different ordinary case."""
+    import hypothesis
+    from hypothesis import given
+    drawn = []
+
+    @hypothesis.seed(derive_seed(seed, "first-use", 0))
+    @_settings(6 + seed % 7)
+    @given(sub.strategy(tier))
+    def collect(case):
+        drawn.append(case)
+
+    collect()
+    if drawn:
+        try:
+            rec.call(drawn[-1])
+        except Violation:
+            pass        # recorded; the search below goes on
+        except _Stop:
+            pass
 
 
 def _run_enum(sub, rec, tier, shard, nshards):
@@ -521,8 +555,27 @@ def isolated(fn, timeout=600):
             resfile.unlink()
 
 
+# no single case of any sub-check takes anywhere near this long, even on a
+# loaded machine (the largest enumerated cases take a few minutes)
+STALL_S = float(os.environ.get("VF_STALL_S", "2400"))
+
+
+def _stall_limit(modname, subname):
+    if "VF_STALL_S" in os.environ:
+        return STALL_S
+    try:
+        mod = sys.modules.get(modname) or importlib.import_module(modname)
+        sub = next(s for s in mod.SUBS if s.name == subname)
+        return float(sub.stall_s) if sub.stall_s else STALL_S
+    except Exception:
+        return STALL_S
+
+
 def run_tasks(tasks, nproc):
-    """Run tasks in forked children, at most nproc at a time."""
+    """Run tasks in forked children, at most nproc at a time. A child that
+    makes no progress (its last-case file is not rewritten) for longer than
+    the sub-check's stall limit is killed and reported like a crash on the
+    case it was evaluating."""
     import pickle
     tmpdir = OUT / "tmp"
     tmpdir.mkdir(parents=True, exist_ok=True)
@@ -560,12 +613,33 @@ def run_tasks(tasks, nproc):
                 finally:
                     os._exit(code)
             running[pid] = (t, resfile, casefile, time.time())
-        pid, status = os.wait()
+        pid, status = os.waitpid(-1, os.WNOHANG)
+        stalled = None
+        if pid == 0:
+            now = time.time()
+            for p_, (t_, _r, cf_, ts_) in running.items():
+                try:
+                    last = max(ts_, cf_.stat().st_mtime)
+                except OSError:
+                    last = ts_
+                lim = _stall_limit(t_[0], t_[1])
+                if now - last > lim:
+                    stalled = (p_, lim)
+                    break
+            if stalled is None:
+                time.sleep(0.05)
+                continue
+            pid = stalled[0]
+            try:
+                os.kill(pid, 9)
+            except OSError:
+                pass
+            _, status = os.waitpid(pid, 0)
         if pid not in running:
             continue
         t, resfile, casefile, tstart = running.pop(pid)
-        if os.WIFEXITED(status) and os.WEXITSTATUS(status) == 0 \
-                and resfile.exists():
+        if stalled is None and os.WIFEXITED(status) \
+                and os.WEXITSTATUS(status) == 0 and resfile.exists():
             results.append(pickle.loads(resfile.read_bytes()))
         else:
             last = None
@@ -577,7 +651,10 @@ def run_tasks(tasks, nproc):
                 "sub": t[1], "shard": t[2], "kind": "?", "evaluations": 0,
                 "skipped": 0, "nt": set(), "labels": {}, "samples": [],
                 "failure": None, "nfailing": 0, "known_hits": {},
-                "status": "crash", "crash": _describe_status(status),
+                "status": "crash",
+                "crash": (_describe_status(status) if stalled is None else
+                          f"killed after {stalled[1]:.0f} s without an "
+                          "answer (the call did not return)"),
                 "lastcase": last, "wall_s": round(time.time() - tstart, 2)})
         for f in (resfile, casefile):
             if f.exists():
@@ -629,10 +706,14 @@ def minimise_history(module, subname, history, case, max_trials=80):
 def replay_isolated(module, subname, case, history=()):
     """replay_case in a forked child: returns None (holds), a message
     (violation) or raises RuntimeError (harness problem)."""
-    kind, val = isolated(lambda: replay_case(module, subname, case, history))
+    kind, val = isolated(lambda: replay_case(module, subname, case, history),
+                         timeout=_stall_limit(module.__name__, subname))
     if kind == "ok":
         return val
     if kind == "crash":
+        if val.startswith("no answer"):
+            return ("the call did not return: " + val + " in a fresh process "
+                    "evaluating only this case (hang)")
         return f"the interpreter process was {val} while evaluating the case"
     raise RuntimeError(val)
 
